@@ -20,10 +20,16 @@ variable {α : Type} [Add α] [Sub α] [Mul α] [Div α] [Neg α] [LT α] [LE α
 def head0 (x : List α) : α := x.headD (Lit.dec 0 0)
 /-- `x[-1]` -/
 def last0 (x : List α) : α := x.getLastD (Lit.dec 0 0)
-/-- `x[1:] = y` (numpy requires `len y = len x − 1`) -/
-def setTail (x y : List α) : List α := head0 x :: y
-/-- `x[:-1] = y` (numpy requires `len y = len x − 1`) -/
-def setInit (x y : List α) : List α := y ++ [last0 x]
+/-- `x[1:] = y` (numpy requires `len y = len x − 1`; on an empty `x` the slice is empty and nothing is stored) -/
+def setTail (x y : List α) : List α :=
+  match x with
+  | [] => []
+  | h :: _ => h :: y
+/-- `x[:-1] = y` (numpy requires `len y = len x − 1`; on an empty `x` nothing is stored) -/
+def setInit (x y : List α) : List α :=
+  match x with
+  | [] => []
+  | _ :: _ => y ++ [last0 x]
 /-- `np.zeros_like(x)` -/
 def zerosLike (x : List α) : List α := x.map (fun _ => (Lit.dec 0 0 : α))
 /-- `x[a:b]` for `0 ≤ a`, `0 ≤ b` -/
